@@ -8,10 +8,10 @@ Model of `buildGatewayHTTPRouteConfig` (pilot/pkg/networking/core/gateway.go) fo
 and a router proxy: servers of the requested route name, host intersection of server hosts and
 VirtualService hosts (`host.NamesForNamespace`, `host.Names.Intersection`, `host.Name.SubsetOf`), one
 virtual host per lower-cased intersecting host (`vHostDedupMap`), routes of every bound VirtualService
-appended in order (compiled once per VirtualService, with the port and `IsTLS: server.Tls != nil` of the
-first server it intersects), `SortVHostRoutes`, `RequireTls` for `httpsRedirect` servers, the blackhole
-virtual host.  `collapseDuplicateRoutes` only merges virtual hosts with identical routes (no change of
-meaning) and is not modelled; virtual hosts are kept in creation order (the code sorts them by name).
+appended in order (compiled once per (gateway, VirtualService), with the port and `IsTLS: server.Tls != nil`
+of the first server of that gateway it intersects), `SortVHostRoutes`, `RequireTls` for `httpsRedirect`
+servers, `collapseDuplicateRoutes`, the blackhole virtual host.  Several Gateway resources selecting the
+router are merged per route name (`MergeGateways`, plain-text HTTP servers of one port share `http.<port>`).
 
 And the SPEC `gwSpec`: which rules of which VirtualServices answer a request that arrives at the
 gateway, written over source terms.
@@ -91,36 +91,47 @@ def hostIntersection (hs os : List String) : List String :=
       else if hostSubsetOf o h then addUnique acc o
       else acc) acc) []
 
-/-- Context of the route translation for a VirtualService first met at server `s`. -/
+/-- Context of the route translation at server `s` of gateway `g`. -/
 def gwCtx (base : Ctx) (g : Gateway) (s : GwServer) : Ctx :=
   { base with gatewayNames := [g.fullName], listenPort := s.port, isTLS := s.hasTLS }
 
-/-- The virtual-host table under construction (`vHostDedupMap`, insertion order) and the per
-    VirtualService route memo (`gatewayRoutes[gatewayName][vskey]`). -/
+/-- A gateway virtual host under construction: its (single) domain, routes, `RequireTls`, and the
+    PROVENANCE of the routes - the route-memo keys appended, i.e. the pointer identity
+    `collapseDuplicateRoutes` hashes. -/
+structure GwVH where
+  host : String
+  port : Nat
+  routes : List Route := []
+  tls : Bool := false
+  prov : List String := []
+
 structure GwAcc where
-  vhosts : List VirtualHost := []
-  memo : List (String × List Route) := []
+  vhosts : List GwVH := []                      -- `vHostDedupMap`, insertion order
+  memo : List (String × List Route) := []       -- `gatewayRoutes[gatewayName][vskey]`
 
-def memoKey (v : GwVS) : String := v.vs.name ++ "/" ++ v.vs.ns
+/-- Route memo key: the routes of a VirtualService are translated once per gateway and per TLS-ness of
+    the server (F-C12-7 fix: `IsTLS` is part of the translation context). -/
+def memoKey (g : Gateway) (s : GwServer) (v : GwVS) : String :=
+  g.fullName ++ "|" ++ v.vs.name ++ "/" ++ v.vs.ns ++ "/" ++ (if s.hasTLS then "true" else "false")
 
-def addToVHost (vhs : List VirtualHost) (d : String) (port : Nat) (routes : List Route) (tls : Bool) : List VirtualHost :=
-  if vhs.any (fun v => v.domains == [d]) then
-    vhs.map (fun v => if v.domains == [d] then
-      { v with routes := v.routes ++ routes, requireTls := v.requireTls || tls } else v)
-  else vhs ++ [{ name := domainName d port, domains := [d], routes := routes, requireTls := tls }]
+def addToVHost (vhs : List GwVH) (d : String) (port : Nat) (routes : List Route) (tls : Bool) (key : String) : List GwVH :=
+  if vhs.any (fun v => v.host == d) then
+    vhs.map (fun v => if v.host == d then
+      { v with routes := v.routes ++ routes, tls := v.tls || tls, prov := v.prov ++ [key] } else v)
+  else vhs ++ [{ host := d, port := port, routes := routes, tls := tls, prov := [key] }]
 
 /-- One (server, VirtualService) step of the double loop. -/
 def gwStep (base : Ctx) (g : Gateway) (s : GwServer) (acc : GwAcc) (v : GwVS) : GwAcc :=
   let inter := hostIntersection (namesForNamespace s.hosts v.vs.ns) v.vs.hosts
   if inter.isEmpty then acc else
-  let known := acc.memo.find? (fun e => e.1 == memoKey v)
+  let known := acc.memo.find? (fun e => e.1 == memoKey g s v)
   let routes := match known with
     | some e => e.2
     | none => compile (gwCtx base g s) v.vs
   if known.isNone && routes.isEmpty then acc     -- "no routes matched": the VirtualService is omitted
   else
-    let memo := if known.isNone then acc.memo ++ [(memoKey v, routes)] else acc.memo
-    { vhosts := inter.foldl (fun vhs h => addToVHost vhs (lower h) s.port routes (s.hasTLS && s.redirect)) acc.vhosts,
+    let memo := if known.isNone then acc.memo ++ [(memoKey g s v, routes)] else acc.memo
+    { vhosts := inter.foldl (fun vhs h => addToVHost vhs (lower h) s.port routes (s.hasTLS && s.redirect) (memoKey g s v)) acc.vhosts,
       memo := memo }
 
 /-- A server host without its namespace qualifier: the host clients address. -/
@@ -130,31 +141,64 @@ def stripNs (h : String) : String :=
   | none => h
 
 /-- The redirect-only virtual hosts of an `httpsRedirect` server (namespace qualifier stripped: F-C12-5 fix). -/
-def gwRedirectHosts (s : GwServer) (vhs : List VirtualHost) : List VirtualHost :=
+def gwRedirectHosts (s : GwServer) (vhs : List GwVH) : List GwVH :=
   if !(s.hasTLS && s.redirect) then vhs else
   s.hosts.foldl (fun vhs h =>
     let d := lower (stripNs h)
-    if vhs.any (fun v => v.domains == [d]) then
-      vhs.map (fun v => if v.domains == [d] then { v with requireTls := true } else v)
-    else vhs ++ [{ name := domainName d s.port, domains := [d], routes := [], requireTls := true }]) vhs
+    if vhs.any (fun v => v.host == d) then
+      vhs.map (fun v => if v.host == d then { v with tls := true } else v)
+    else vhs ++ [{ host := d, port := s.port, routes := [], tls := true, prov := [] }]) vhs
 
-def gwServerLoop (base : Ctx) (g : Gateway) (vss : List GwVS) (acc : GwAcc) (s : GwServer) : GwAcc :=
-  let a := vss.foldl (gwStep base g s) acc
-  { a with vhosts := gwRedirectHosts s a.vhosts }
-
-/-- Servers of a route name, hosts sanitised. -/
-def gwServers (g : Gateway) (routeName : String) : List GwServer :=
-  (g.servers.filter (fun s => routeNameOf g s == routeName)).map (fun s => { s with hosts := sanitizeHosts g.ns s.hosts [] })
-
-/-- VirtualServices bound to the gateway (`VirtualServicesForGateway`; all public, creation order). -/
+/-- VirtualServices bound to a gateway (`VirtualServicesForGateway`; all public, creation order). -/
 def boundTo (g : Gateway) (vss : List GwVS) : List GwVS := vss.filter (fun v => v.gateways.contains g.fullName)
 
+def gwServerLoop (base : Ctx) (vss : List GwVS) (acc : GwAcc) (gs : Gateway × GwServer) : GwAcc :=
+  let a := (boundTo gs.1 vss).foldl (gwStep base gs.1 gs.2) acc
+  { a with vhosts := gwRedirectHosts gs.2 a.vhosts }
+
+/-- `MergeGateways`: the servers of a route name, gateways in creation order, hosts sanitised, each with
+    its gateway (`GatewayNameForServer`). -/
+def gwServers (gws : List Gateway) (routeName : String) : List (Gateway × GwServer) :=
+  gws.flatMap fun g =>
+    (g.servers.filter (fun s => routeNameOf g s == routeName)).map (fun s => (g, { s with hosts := sanitizeHosts g.ns s.hosts [] }))
+
+/-- `host.MoreSpecific` in full: non-wildcards before wildcards, longer first, then alphabetically. -/
+def moreSpecificFull (a b : String) : Bool :=
+  if isWildcarded a && !isWildcarded b then false
+  else if !isWildcarded a && isWildcarded b then true
+  else if a.length == b.length then a < b else a.length > b.length
+
+def insertVH (v : GwVH) : List GwVH → List GwVH
+  | [] => [v]
+  | x :: xs => if moreSpecificFull v.host x.host then v :: x :: xs else x :: insertVH v xs
+
+def sortVHs : List GwVH → List GwVH
+  | [] => []
+  | v :: vs => insertVH v (sortVHs vs)
+
+def setKnown (known : List (List String × String)) (prov : List String) (h : String) : List (List String × String) :=
+  if known.any (fun e => e.1 == prov) then known.map (fun e => if e.1 == prov then (prov, h) else e) else known ++ [(prov, h)]
+
+/-- `collapseDuplicateRoutes`: in `host.Names` order, a virtual host whose route list is (pointer-)identical
+    to that of the LAST virtual host registered under the same route-list hash (`known[hash]`) and that is
+    mergeable with it (`RequireTls` equal) only contributes its domain; otherwise it is registered itself. -/
+def collapse : List GwVH → List (GwVH × List String) → List (List String × String) → List (GwVH × List String)
+  | [], acc, _ => acc
+  | v :: vs, acc, known =>
+    match known.find? (fun e => e.1 == v.prov) with
+    | some e =>
+      if acc.any (fun a => a.1.host == e.2 && a.1.tls == v.tls) then
+        collapse vs (acc.map (fun a => if a.1.host == e.2 then (a.1, a.2 ++ [v.host]) else a)) known
+      else collapse vs (acc ++ [(v, [v.host])]) (setKnown known v.prov v.host)
+    | none => collapse vs (acc ++ [(v, [v.host])]) (setKnown known v.prov v.host)
+
 /-- `buildGatewayHTTPRouteConfig`: the virtual hosts of route `routeName`. -/
-def gwVHosts (base : Ctx) (g : Gateway) (vss : List GwVS) (routeName : String) : List VirtualHost :=
-  let servers := gwServers g routeName
-  let acc := servers.foldl (gwServerLoop base g (boundTo g vss)) {}
-  if acc.vhosts.isEmpty then [{ name := "blackhole", domains := ["*"], routes := [] }]
-  else acc.vhosts.map (fun v => { v with routes := sortVHostRoutes v.routes })
+def gwVHosts (base : Ctx) (gws : List Gateway) (vss : List GwVS) (routeName : String) : List VirtualHost :=
+  let acc := (gwServers gws routeName).foldl (gwServerLoop base vss) {}
+  if acc.vhosts.isEmpty then
+    [{ name := domainName "blackhole" (((gwServers gws routeName).head?.map (·.2.port)).getD 0), domains := ["*"], routes := [] }]
+  else (collapse (sortVHs acc.vhosts) [] []).map fun e =>
+    { name := domainName e.1.host e.1.port, domains := e.2, routes := sortVHostRoutes e.1.routes, requireTls := e.1.tls }
 
 /-! ## SPEC -/
 
@@ -204,57 +248,46 @@ def mergedSpec (re : Regex) (l : List (Ctx × VirtualService)) (req : Request) :
     | some d => d
     | none => .notFound
 
-/-- First server of the route (loop order) whose hosts intersect the VirtualService's: the context its
-    routes are translated in. -/
-def firstServerFor (g : Gateway) (servers : List GwServer) (v : GwVS) : Option GwServer :=
-  servers.find? (fun s => !(hostIntersection (namesForNamespace s.hosts v.vs.ns) v.vs.hosts).isEmpty)
-
-/-- The (context, VirtualService) pairs that answer for domain `d`, in the order the code appends their
-    routes: servers in order, bound VirtualServices in creation order, a VirtualService counted at every
-    server whose intersection with it contains `d`; VirtualServices without a rule for this proxy omitted. -/
-def contributors (base : Ctx) (g : Gateway) (vss : List GwVS) (routeName : String) (d : String) : List (Ctx × VirtualService) :=
-  let servers := gwServers g routeName
-  servers.flatMap fun s =>
-    (boundTo g vss).filterMap fun v =>
-      if (hostIntersection (namesForNamespace s.hosts v.vs.ns) v.vs.hosts).any (fun h => lower h == d) then
-        match firstServerFor g servers v with
-        | some s0 => if vsApplies (gwCtx base g s0) v.vs then some (gwCtx base g s0, v.vs) else none
-        | none => none
+/-- The (context, VirtualService) pairs that answer for domain `d`, in order: every server of the route
+    (gateways in creation order) whose hosts, intersected with those of a VirtualService bound to the
+    server's gateway, contain `d` contributes that VirtualService - translated in the context of THAT
+    server (its port, its TLS setting, its gateway as the only gateway name); VirtualServices without a
+    rule for this proxy at that server are omitted. -/
+def contributors (base : Ctx) (gws : List Gateway) (vss : List GwVS) (routeName : String) (d : String) : List (Ctx × VirtualService) :=
+  (gwServers gws routeName).flatMap fun gs =>
+    (boundTo gs.1 vss).filterMap fun v =>
+      if (hostIntersection (namesForNamespace gs.2.hosts v.vs.ns) v.vs.hosts).any (fun h => lower h == d)
+          && vsApplies (gwCtx base gs.1 gs.2) v.vs then
+        some (gwCtx base gs.1 gs.2, v.vs)
       else none
 
 /-- Domains of the route configuration: every intersecting host (of a VirtualService with a rule for
     this proxy), plus the hosts of `httpsRedirect` servers. -/
-def gwDomains (base : Ctx) (g : Gateway) (vss : List GwVS) (routeName : String) : List String :=
-  let servers := gwServers g routeName
-  servers.flatMap fun s =>
-    ((boundTo g vss).flatMap fun v =>
-      match firstServerFor g servers v with
-      | some s0 => if vsApplies (gwCtx base g s0) v.vs then
-          (hostIntersection (namesForNamespace s.hosts v.vs.ns) v.vs.hosts).map lower else []
-      | none => [])
-    ++ (if s.hasTLS && s.redirect then s.hosts.map (fun h => lower (stripNs h)) else [])
+def gwDomains (base : Ctx) (gws : List Gateway) (vss : List GwVS) (routeName : String) : List String :=
+  (gwServers gws routeName).flatMap fun gs =>
+    ((boundTo gs.1 vss).flatMap fun v =>
+      if vsApplies (gwCtx base gs.1 gs.2) v.vs then
+        (hostIntersection (namesForNamespace gs.2.hosts v.vs.ns) v.vs.hosts).map lower else [])
+    ++ (if gs.2.hasTLS && gs.2.redirect then gs.2.hosts.map (fun h => lower (stripNs h)) else [])
 
-def domainRequiresTls (base : Ctx) (g : Gateway) (vss : List GwVS) (routeName : String) (d : String) : Bool :=
-  let servers := gwServers g routeName
-  servers.any fun s =>
-    s.hasTLS && s.redirect &&
-      (s.hosts.any (fun h => lower (stripNs h) == d) ||
-       (boundTo g vss).any (fun v =>
-         (hostIntersection (namesForNamespace s.hosts v.vs.ns) v.vs.hosts).any (fun h => lower h == d) &&
-         (match firstServerFor g servers v with
-          | some s0 => vsApplies (gwCtx base g s0) v.vs
-          | none => false)))
+def domainRequiresTls (base : Ctx) (gws : List Gateway) (vss : List GwVS) (routeName : String) (d : String) : Bool :=
+  (gwServers gws routeName).any fun gs =>
+    gs.2.hasTLS && gs.2.redirect &&
+      (gs.2.hosts.any (fun h => lower (stripNs h) == d) ||
+       (boundTo gs.1 vss).any (fun v =>
+         (hostIntersection (namesForNamespace gs.2.hosts v.vs.ns) v.vs.hosts).any (fun h => lower h == d) &&
+         vsApplies (gwCtx base gs.1 gs.2) v.vs))
 
 /-- **Gateway SPEC.**  The request is answered by the most specific domain of the route configuration
-    for its authority (exact, longest wildcard, `*`); plain-text requests to an `httpsRedirect` host are
-    redirected; otherwise the merged rules of the contributing VirtualServices decide. -/
-def gwSpec (re : Regex) (base : Ctx) (g : Gateway) (vss : List GwVS) (routeName : String) (req : Request) : Decision :=
-  let ds := gwDomains base g vss routeName
-  match selectVHost (ds.map (fun d => { name := d, domains := [d], routes := [] })) req.authority with
+    for its authority (exact, longest wildcard, `*`; port ignored); plain-text requests to an
+    `httpsRedirect` host are redirected; otherwise the merged rules of the contributing VirtualServices. -/
+def gwSpec (re : Regex) (base : Ctx) (gws : List Gateway) (vss : List GwVS) (routeName : String) (req : Request) : Decision :=
+  let ds := gwDomains base gws vss routeName
+  match selectVHost (ds.map (fun d => { name := d, domains := [d], routes := [] })) (stripPort req.authority) with
   | none => .notFound
   | some v =>
     let d := v.name
-    if domainRequiresTls base g vss routeName d && req.scheme == "http" then .tlsRedirect
-    else mergedSpec re (contributors base g vss routeName d) req
+    if domainRequiresTls base gws vss routeName d && req.scheme == "http" then .tlsRedirect
+    else mergedSpec re (contributors base gws vss routeName d) req
 
 end IstioModel.C12
